@@ -22,6 +22,7 @@ is skipped.  The replay trace is ``{"ops": [...], "crash": <crash point or null>
 import collections
 import hashlib
 import os
+import re
 import random
 import shutil
 import sqlite3 as REAL_SQLITE3
@@ -932,6 +933,20 @@ SIDE_SUFFIXES = ("-journal", "-wal", "-shm")
 TUNING = {"small_cache": False}  # set per run by run_c08 (a forked real-kill child inherits it)
 
 
+def split_script(script):
+    """The statements of an SQL script, split where SQLite itself would (sqlite3.complete_statement)."""
+    out, cur = [], ""
+    for part in re.split(r"(;)", script):
+        cur += part
+        if part == ";" and REAL_SQLITE3.complete_statement(cur):
+            if cur.strip(" \t\r\n;"):
+                out.append(cur)
+            cur = ""
+    if cur.strip(" \t\r\n;"):
+        out.append(cur)
+    return out
+
+
 class CursorProxy:
     __slots__ = ("_k", "_cb")
 
@@ -945,6 +960,39 @@ class CursorProxy:
             self._k.execute(sql, params)
         finally:
             self._cb("after_statement")
+        return self
+
+    def executemany(self, sql, seq):
+        self._cb("before_statement")
+        try:
+            self._k.executemany(sql, seq)
+        finally:
+            self._cb("after_statement")
+        return self
+
+    def executescript(self, script):
+        # sqlite3's executescript() = COMMIT of a pending transaction, then every statement of the script outside
+        # Python's transaction control (autocommit unless the script itself says BEGIN).  The same thing with a
+        # boundary (= possible crash point) around the commit and around each statement: commit, then the
+        # statements one by one with the connection's implicit BEGIN switched off.
+        conn = self._k.connection
+        if conn.in_transaction:
+            self._cb("before_commit")
+            try:
+                conn.commit()
+            finally:
+                self._cb("after_commit")
+        saved = conn.isolation_level
+        conn.isolation_level = None
+        try:
+            for piece in split_script(script):
+                self._cb("before_statement")
+                try:
+                    self._k.execute(piece)
+                finally:
+                    self._cb("after_statement")
+        finally:
+            conn.isolation_level = saved
         return self
 
     def __iter__(self):
@@ -981,6 +1029,16 @@ class ConnProxy:
             self._c.commit()
         finally:
             self._cb("after_commit")
+
+    # connection-level shortcuts create a cursor of their own: same boundaries as through cursor()
+    def execute(self, sql, params=()):
+        return self.cursor().execute(sql, params)
+
+    def executemany(self, sql, seq):
+        return self.cursor().executemany(sql, seq)
+
+    def executescript(self, script):
+        return self.cursor().executescript(script)
 
     def close(self):
         self._c.close()
